@@ -512,7 +512,13 @@ under!(BothPat, input, g_sig, inverse, asm, {
 
 under!(OnPat, input, g_sig, inverse, asm, On, span, [f], {
     // F inverse
-    let inner_g_sig = Signature::new(g_sig.args().saturating_sub(1), g_sig.outputs());
+    // When G gives as many values as it takes, the undo of F is dipped below the top one
+    let inner_g_outputs = if g_sig.args() == g_sig.outputs() {
+        g_sig.outputs().saturating_sub(1)
+    } else {
+        g_sig.outputs()
+    };
+    let inner_g_sig = Signature::new(g_sig.args().saturating_sub(1), inner_g_outputs);
     let (f_before, f_after) = f.under_inverse(inner_g_sig, inverse, asm)?;
     // Rest inverse
     let (rest_before, rest_after) = under_inverse(input, g_sig, inverse, asm)?;
